@@ -58,6 +58,7 @@ namespace awkward {
     for (auto x : contents_) {
       x.get()->clear();
     }
+    contents_.clear();
     length_ = -1;
     begun_ = false;
     nextindex_ = -1;
